@@ -199,8 +199,8 @@ func (l *listener) handle(conn net.Conn) {
 
 	l.logger.Debug("connection stats",
 		zap.String("remote", cx.RemoteAddr().String()),
-		zap.Uint64("read", cx.bytesRead),
-		zap.Uint64("written", cx.bytesWritten),
+		zap.Uint64("read", cx.bytesRead.Load()),
+		zap.Uint64("written", cx.bytesWritten.Load()),
 		zap.Duration("duration", duration),
 	)
 }
